@@ -4,6 +4,7 @@ package libtime
 
 import (
 	"context"
+	"fmt"
 	"time"
 
 	"github.com/luthersystems/elps/lisp"
@@ -142,12 +143,43 @@ func BuiltinUTCNow(env *lisp.LEnv, args *lisp.LVal) *lisp.LVal {
 	return Time(time.Now().UTC())
 }
 
+// parseStrictRFC3339 is time.Parse(layout, s) for the RFC3339 layouts plus the
+// checks the layout syntax cannot express (https://go.dev/issue/54580):
+// time.Parse accepts a one-digit hour ("T1:30:00Z"), ',' as the decimal mark
+// of the seconds, and the numeric offsets +24:00 and +23:60, none of which is
+// RFC 3339.  These are the checks of the standard library's own (currently
+// disabled) strict mode.
+func parseStrictRFC3339(layout, s string) (time.Time, error) {
+	t, err := time.Parse(layout, s)
+	if err != nil {
+		return t, err
+	}
+	// s was accepted, so it is at least "2006-01-02T1:04:05Z" long.
+	num2 := func(b string) int { return 10*int(b[0]-'0') + int(b[1]-'0') }
+	const timeStart = len("2006-01-02T")
+	switch {
+	case s[timeStart+1] == ':':
+		return time.Time{}, fmt.Errorf("parsing time %q: hour must have two digits", s)
+	case s[timeStart+len("15:04:05")] == ',':
+		return time.Time{}, fmt.Errorf("parsing time %q: fractional second must be introduced by '.'", s)
+	case s[len(s)-1] != 'Z':
+		off := s[len(s)-len("07:00"):]
+		if num2(off[:2]) > 23 {
+			return time.Time{}, fmt.Errorf("parsing time %q: time zone offset hour out of range", s)
+		}
+		if num2(off[3:]) > 59 {
+			return time.Time{}, fmt.Errorf("parsing time %q: time zone offset minute out of range", s)
+		}
+	}
+	return t, nil
+}
+
 func BuiltinParseRFC3339(env *lisp.LEnv, args *lisp.LVal) *lisp.LVal {
 	stamp := args.Cells[0]
 	if stamp.Type != lisp.LString {
 		return env.Errorf("argument is not a string: %v", stamp.Type)
 	}
-	t, err := time.Parse(time.RFC3339, stamp.Str)
+	t, err := parseStrictRFC3339(time.RFC3339, stamp.Str)
 	if err != nil {
 		return env.Error(err)
 	}
@@ -159,7 +191,7 @@ func BuiltinParseRFC3339Nano(env *lisp.LEnv, args *lisp.LVal) *lisp.LVal {
 	if stamp.Type != lisp.LString {
 		return env.Errorf("argument is not a string: %v", stamp.Type)
 	}
-	t, err := time.Parse(time.RFC3339Nano, stamp.Str)
+	t, err := parseStrictRFC3339(time.RFC3339Nano, stamp.Str)
 	if err != nil {
 		return env.Error(err)
 	}
